@@ -1,22 +1,72 @@
 """C12 — optimal partitioning returns a global optimum for the requested direction
 (tracklib/algo/segmentation.py: optimalPartition, backtracking, backward, optimalSegmentation, findStopsGlobal;
-tracklib/algo/simplification.py: optimalSimplification, simplify's two "free" modes)."""
-import sys, itertools
+tracklib/algo/simplification.py: optimalSimplification, simplify's modes 4-8).
+
+Streams (`kind`):
+  sym / part   optimalPartition on a given matrix (exact rationals or doubles, several call forms)
+  partseq      several calls of optimalPartition on ONE matrix object (state left by earlier calls, aliasing)
+  fe           the front ends optimalSegmentation / optimalSimplification / simplify(FREE, FREE_MAXIMIZE) with a user cost
+               function (3 or 4 parameters, default value, *rest, callable object) and a global parameter (None, 0, 0.0,
+               -0.0, False, numpy zero, negative, inf, tuples): the oracle evaluates the cost function ITSELF with the
+               requested parameter and enumerates all chains
+  sb           simplify with the built-in criteria 4, 5, 6 on planar tracks (the module's own cost function, tolerance as
+               global parameter)
+  stops        findStopsGlobal: the oracle recomputes the reward matrix from the track with exact rational geometry
+"""
+import sys, itertools, math, json, os
 from fractions import Fraction
 from engine import Prop, fbits, bitsf, ratstr
 
-FINDING_D19 = "simplification-maximise-not-forwarded"
+INF = float("inf")
+FINDING_MINCIRCLE = "stops-mincircle-none"
+
+
+# ------------------------------------------------------------------------------------------------
+# exact values extended with +-inf (a double is an exact rational or an infinity; NaN is outside the domain)
+# ------------------------------------------------------------------------------------------------
+def X(v):
+    """exact value of a token / number: Fraction, or float +-inf / nan"""
+    if isinstance(v, str):
+        return Fraction(v)
+    if isinstance(v, Fraction):
+        return v
+    f = float(v)
+    if f != f or f in (INF, -INF):
+        return f
+    return Fraction(f)
+
+
+def finite(x):
+    return isinstance(x, Fraction)
+
+
+def isnan(x):
+    return isinstance(x, float) and x != x
+
+
+def xsum(vals):
+    tot, extra = Fraction(0), 0.0
+    for v in vals:
+        if finite(v):
+            tot += v
+        else:
+            extra += v          # +-inf / nan arithmetic of doubles
+    return tot if extra == 0.0 else extra
 
 
 # ------------------------------------------------------------------------------------------------
 # oracle: enumeration of all strictly increasing chains 0 = p0 < ... < pr = N-1
 # ------------------------------------------------------------------------------------------------
 def chain_cost(Cx, idx):
-    return sum((Cx[a][b] for a, b in zip(idx, idx[1:])), Fraction(0))
+    return xsum(Cx[a][b] for a, b in zip(idx, idx[1:]))
+
+
+def chain_abs(Cx, idx):
+    return sum((abs(Cx[a][b]) for a, b in zip(idx, idx[1:]) if finite(Cx[a][b])), Fraction(0))
 
 
 def brute(Cx, N, maximise):
-    """(best exact cost, one best chain) over the 2^(N-2) chains; Cx: exact (Fraction) matrix"""
+    """(best exact cost, one best chain) over the 2^(N-2) chains; Cx: exact matrix (Fraction / inf)"""
     best, arg = None, None
     inner = list(range(1, N - 1))
     for r in range(len(inner) + 1):
@@ -33,16 +83,105 @@ def is_chain(idx, N):
             and all(a < b for a, b in zip(idx, idx[1:])))
 
 
-def oracle(Cx, N, maximise, idx, tol=0):
+def oracle(Cx, N, maximise, idx, rel=0, what="summed segment cost"):
+    """The property on one answer. `rel` = 0: exact optimum (exact scalars). `rel` > 0 (doubles): the optimum up to
+    `rel` times the absolute costs summed along the answer and along one optimal chain — the rounding of the
+    (non-associative) double additions performed on those two chains is what separates the table value from the
+    exact sums; N * 2^-53 is far below `rel`."""
     if not is_chain(idx, N):
         return "result %s is not a strictly increasing list from 0 to %d" % (idx, N - 1)
+    for a in range(N):
+        for b in range(a + 1, N):
+            if isnan(Cx[a][b]):
+                return None           # NaN costs: comparisons are not an order, outside the property
     got = chain_cost(Cx, idx)
     best, arg = brute(Cx, N, maximise)
-    slack = tol * max([1] + [abs(Cx[a][b]) for a in range(N) for b in range(N)]) * N if tol else 0
-    if (got < best - slack) if maximise else (got > best + slack):
-        return "result %s has summed segment cost %s but %s has %s (%s requested)" % (
-            idx, float(got), arg, float(best), "maximum" if maximise else "minimum")
+    if isnan(got) or isnan(best):
+        return None                   # inf - inf along a chain
+    slack = 0
+    if rel:
+        slack = Fraction(rel) * (chain_abs(Cx, idx) + chain_abs(Cx, arg))
+    if finite(got) and finite(best):
+        bad = (got < best - slack) if maximise else (got > best + slack)
+    else:
+        bad = (got < best) if maximise else (got > best)
+    if bad:
+        return "result %s has %s %s but %s has %s (%s requested)" % (
+            idx, what, float(got), arg, float(best), "maximum" if maximise else "minimum")
     return None
+
+
+# ------------------------------------------------------------------------------------------------
+# exact planar geometry for the stop-detection oracle (coordinates are integers / dyadic doubles)
+# ------------------------------------------------------------------------------------------------
+def d2(p, q):
+    return (p[0] - q[0]) ** 2 + (p[1] - q[1]) ** 2
+
+
+def mec3_r2(p, q, r):
+    """squared radius of the minimal enclosing circle of three distinct points"""
+    a2, b2, c2 = d2(q, r), d2(p, r), d2(p, q)
+    m = max(a2, b2, c2)
+    if a2 + b2 + c2 - m <= m:          # right, obtuse or flat: the longest side is a diameter
+        return Fraction(m) / 4
+    cr = (q[0] - p[0]) * (r[1] - p[1]) - (q[1] - p[1]) * (r[0] - p[0])
+    return Fraction(a2 * b2 * c2) / (4 * cr * cr)
+
+
+def mec_r2(pts):
+    """squared radius of the minimal enclosing circle (it is determined by at most three of the points, and is the
+    largest of the circles of all triples)"""
+    pts = list(dict.fromkeys(pts))
+    if len(pts) == 1:
+        return Fraction(0)
+    if len(pts) == 2:
+        return Fraction(d2(*pts)) / 4
+    return max(mec3_r2(*t) for t in itertools.combinations(pts, 3))
+
+
+# ------------------------------------------------------------------------------------------------
+# global parameters and cost functions of the front-end stream
+# ------------------------------------------------------------------------------------------------
+def pyval(tok, np=None):
+    k = tok[0]
+    if k == "none":
+        return None
+    if k == "int":
+        return int(tok[1])
+    if k == "float":
+        return float(tok[1])
+    if k == "bool":
+        return bool(tok[1])
+    if k == "npf":
+        return np.float64(tok[1])
+    if k == "tuple":
+        return tuple(float(x) for x in tok[1])
+    raise ValueError(tok)
+
+
+BIGS = {"q": 1024.0, "f": 1e300}
+
+
+def cost_value(fam, s, a, span, p):
+    """the user's criterion: value of a segment whose table entry is `a`, covering `span` indices, for the parameter p"""
+    if fam == "offset":       # deviation + penalty per segment
+        return a + p
+    if fam == "scale":        # weighted deviation
+        return a * p
+    if fam == "thresh":       # deviations above the tolerance are precluded (as the built-in strict criterion)
+        return BIGS[s] * (a > p) + 1
+    if fam == "weights":      # p = tuple of polynomial weights on the length of the segment
+        return a + sum(w * span ** k for k, w in enumerate(p))
+    raise ValueError(fam)
+
+
+# other ways of writing the direction: `mode == MODE_SEGMENTATION_MINIMIZE (0)` / `== MODE_SEGMENTATION_MAXIMIZE (1)`
+MODEVALS = {"min": ["False", "0.0", "np.int64(0)"], "max": ["True", "1.0", "np.int64(1)"]}
+NEITHER = ("2", "None", "'max'")       # equal to neither constant: no direction is requested, [0, N-1] is returned
+
+ACCEPTS3 = ("3", "4d", "var", "obj")
+ACCEPTS4 = ("4", "4d", "var", "obj")
+MODEL_SIG = {"3": "3", "4": "4", "4d": "4d", "var": "4d", "obj": "4d", "nc": "nc"}
 
 
 class P(Prop):
@@ -54,25 +193,49 @@ class P(Prop):
         ("TracklibVerif.Props.C12", "TV.C12.optimal_max", "T2: in MAXIMIZE mode it is >= that of every such list"),
         ("TracklibVerif.Props.C12", "TV.C12.table_value", "the in-place D/M table programme (run by the driver) computes the interval recursion opt; D[0,N-1] is the cost of the returned list"),
         ("TracklibVerif.Props.C12", "TV.C12.array_form", "the programme on real 2-D arrays (what the driver runs) returns the same list and tables as the function-table form"),
-        ("TracklibVerif.Props.C12", "TV.C12.segmentation_optimal", "T3: optimalSegmentation's result is a chain 0..size-2 optimal in the requested direction for the costs cost(track,a,b-1)"),
-        ("TracklibVerif.Props.C12", "TV.C12.segmentation_optimal_min", "T3: minimising instance"),
-        ("TracklibVerif.Props.C12", "TV.C12.segmentation_optimal_max", "T3: maximising instance"),
-        ("TracklibVerif.Props.C12", "TV.C12.simplification_selects", "T3: optimalSimplification keeps the observations selected by the MINIMISING optimalSegmentation whatever mode is (mode not forwarded: D19)"),
-        ("TracklibVerif.Props.C12", "TV.C12.simplify_free", "simplify MODE_SIMPLIFY_FREE is that selection; MODE_SIMPLIFY_FREE_MAXIMIZE raises"),
+        ("TracklibVerif.Props.C12", "TV.C12.optimal_bracketed", "T2 without associativity (IEEE doubles): for ANY addition that is monotone for the order, D[0,N-1] is the value of the returned list summed in the order given by the split table, and it is at least as good as EVERY bracketing of EVERY chain"),
+        ("TracklibVerif.Props.C12", "TV.C12.optimal_rounded", "T2 for rounded arithmetic (standard model |fl(a+b)-(a+b)| <= u|a+b|, monotone, no associativity): the EXACT summed cost of the result is within ((1+u)^(N-2)-1) x (absolute costs along the result and along the competitor) of the exact cost of every chain, both directions"),
+        ("TracklibVerif.Props.C12", "TV.C12.seg_matrix", "optimalSegmentation's two loops + C + C.T (loop form) build the closed form: cost(track,a,b-1) at a<b<=size-2, symmetric, 2*cost(track,a,a-1) on the diagonal, zero last row/column"),
+        ("TracklibVerif.Props.C12", "TV.C12.segmentation_optimal", "T3: with the cost as a total function the result is a chain 0..size-2 optimal in the requested direction for the costs cost(track,a,b-1)"),
+        ("TracklibVerif.Props.C12", "TV.C12.segmentation_requested", "T3: optimalSegmentation(track, cost, glob_param, mode) as called from Python (3-/4-parameter functions, defaults, None vs any other parameter value) returns a chain optimal for the criterion evaluated with the REQUESTED parameter"),
+        ("TracklibVerif.Props.C12", "TV.C12.segmentation_requested_min", "T3: instance: cost(track,i,j,p=d) called with g minimises sum f(.,.,g), never the default d"),
+        ("TracklibVerif.Props.C12", "TV.C12.segmentation_requested_max", "T3: instance: three-parameter function, no parameter, maximise"),
+        ("TracklibVerif.Props.C12", "TV.C12.segmentation_errors", "outside the domain: an unaccepted call protocol raises TypeError (size >= 3); size 2 gives [0,0], size 1 IndexError, size 0 ValueError"),
+        ("TracklibVerif.Props.C12", "TV.C12.simplification_selects", "T3: optimalSimplification keeps, in order, exactly the observations at the indices of optimalSegmentation for the same parameter AND direction (forwarded), an optimal selection"),
+        ("TracklibVerif.Props.C12", "TV.C12.simplify_modes", "simplify: FREE = optimalSimplification(cost, None, MINIMIZE), FREE_MAXIMIZE = (cost, None, MAXIMIZE), modes 4-6 = (built-in 4-parameter cost, tolerance, MINIMIZE)"),
+        ("TracklibVerif.Props.C12", "TV.C12.stops_matrix", "the row loops of stop detection with break + C + C.T put stopsReward(a,b) at a<b: (b-a)^2 iff the break test holds for no earlier end point, the continue test does not hold and the size is computed and admitted; symmetric"),
+        ("TracklibVerif.Props.C12", "TV.C12.stops_documented", "findStopsGlobal's tests (026cb79): the reward of (a,b) is (b-a)^2 exactly when every end point is within diameter of p_a, duration <= t(p_{b-1}) - t(p_a) and minCircle gives a circle with 2r <= diameter (inclusive, as documented); 0 otherwise"),
+        ("TracklibVerif.Props.C12", "TV.C12.stops_optimal", "T3: the segmentation computed inside findStopsGlobal maximises the summed stopsReward (= the documented criterion, stops_documented) over all chains 0..size-2"),
     ]
     partial = []
-    open_statements = ["findStopsGlobal's matrix construction (minimal enclosing circles) is not modelled: the check intercepts the matrix and mode it passes to optimalPartition and applies the oracle to that call",
-                       "the theorems are over a linearly ordered additive commutative monoid; for IEEE doubles (non-associative +) optimality up to rounding is sampled by the transfer check (1e-9 relative)",
-                       "the maximising direction of the simplification front end does not hold on this tree (finding D19, class simplification-maximise-not-forwarded)"]
+    open_statements = [
+        "IEEE doubles: optimal_bracketed / optimal_rounded are proved for an abstract rounded addition (monotone, relative error u, no associativity); that binary64 addition satisfies these hypotheses (no NaN, no overflow, u = 2^-53) is assumed, not proved in Lean (Float is opaque), and is what the transfer check on doubles samples, with the same tolerance shape and the generous constant 1e-9",
+        "findStopsGlobal: distances, durations and circle diameters are parameters of the model (it applies the three threshold tests itself, stopPredGlobal); the check computes them with exact rational geometry, except the entries where tracklib's minCircle returns None (recorded from the run) and circles through >= 3 distinct fixes whose exact diameter equals the limit (doubles decide: read off the run)",
+        "findStopsGlobal: when tracklib's minCircle returns None for a segment (three collinear boundary points met in some random orders of Welzl's algorithm) the code writes reward 0 where the documented criterion rewards the segment; the model has this case (`small = none`), the oracle demands the optimum of the DOCUMENTED criterion and reports the loss (class '%s')" % FINDING_MINCIRCLE,
+        "findStopsGlobalForRTK (outside the property's anchors): its tests are still exclusive (`<= duration`, `< std_max`) and its source comment documents a factor 0.33 under the root that the code does not have; only the delegation and the correspondence of its matrix construction are checked",
+        "simplify's built-in cost functions (modes 4-6: minimum bounding rectangle geometry) are a parameter of the model; the check evaluates the module's own functions with the requested tolerance",
+    ]
     modelled = ("segmentation.optimalPartition (N = rows-1, D/M tables filled by increasing diagonals, both direction tests as written), "
-                "backtracking, backward, optimalSegmentation's matrix build; simplification.optimalSimplification (mode not forwarded) and "
-                "simplify() for MODE_SIMPLIFY_FREE / MODE_SIMPLIFY_FREE_MAXIMIZE; findStopsGlobal's call is observed (matrix and mode it passes)")
+                "backtracking, backward; optimalSegmentation INCLUDING the call protocol of the cost function (is-None test on glob_param, 3/4 "
+                "positional arguments, defaults, TypeError), the two loops filling the matrix, C + C.T, degenerate track sizes; "
+                "simplification.optimalSimplification (parameter and direction forwarded, b8f1113), simplify() modes 4-8; findStopsGlobal's and "
+                "findStopsGlobalForRTK's reward matrix (row loops with break/continue, thresholds as written, C + C.T), their call of "
+                "optimalPartition(MAXIMIZE) and findStopsGlobal's final filter; geometry, clock and the built-in cost functions are parameters")
     rule = ("all {0,1,2}-valued symmetric matrices over N <= 4 (quick) / <= 5 (thorough) candidates and all {0,1}-valued for N = 6 (thorough), "
             "both directions; random symmetric matrices up to N = 12 over small integers / dyadic rationals (exact, model at Rat) and over doubles "
-            "(model at Float, bit patterns), negative entries included, the unused last row/column filled with junk; optimalSegmentation / "
-            "optimalSimplification / simplify on tracks with a table-driven cost function; findStopsGlobal on small random tracks with the "
-            "delegated call intercepted. Oracle: enumeration of all 2^(N-2) chains in exact arithmetic, costs compared (ties may pick another chain). "
-            "non-trivial = at least 3 candidates (so that at least one alternative chain exists)")
+            "(model at Float, bit patterns): uniform, gaussian, one-decimal and tie-rich values, 1e300 sentinels, +inf entries, N = 2..3, junk in the "
+            "unused last row/column, several call forms (default/keyword mode, the direction written as True/1.0/numpy integer or as a value equal to "
+            "neither constant, verbose, integer dtype, strided view, Fortran order); every matrix is submitted a second time as the same object, and "
+            "sequences of calls with changing directions run on one matrix object; front ends with generated cost functions (3 / 4 / 4-with-default / "
+            "*rest / callable object / not callable, four parametrised families) and global parameters None, 0, 0.0, -0.0, False, numpy zero, "
+            "negative, positive, inf, tuples (empty included), positional and keyword call forms, track sizes 0..9, single calls and sequences of "
+            "calls on the same track and cost function with changing parameter / direction / entry point; simplify modes 4-6 on planar tracks with "
+            "tolerances 0, 0.0, -0.0, False, numpy zero, positive, negative, inf, None; findStopsGlobal on lattice and dyadic tracks (duplicates, "
+            "collinear points, exact ties with both thresholds) and findStopsGlobalForRTK on dyadic tracks. Oracle: enumeration of all 2^(N-2) chains "
+            "in exact arithmetic on the matrix RECOMPUTED from the cost function and the requested parameter (from the track with exact rational "
+            "geometry, for findStopsGlobal), values compared (ties may pick another chain); doubles: optimum up to 1e-9 x the absolute costs summed "
+            "along the answer and along one optimal chain (the shape proved in optimal_rounded). non-trivial = at least 3 candidates, the call "
+            "protocol accepted, and for stops a reward matrix that is not zero")
 
     def setup(self):
         import importlib
@@ -86,16 +249,30 @@ class P(Prop):
         from tracklib.core.track import Track
         self.Obs, self.ENU, self.T, self.Track = Obs, ENUCoords, ObsTime, Track
         self.MODES = {"min": self.S.MODE_SEGMENTATION_MINIMIZE, "max": self.S.MODE_SEGMENTATION_MAXIMIZE}
+        self.BUILTIN = {4: getattr(self.Z, "__cost_largest_deviation"), 5: getattr(self.Z, "__cost_mbr_ratio"),
+                        6: getattr(self.Z, "__cost_largest_deviation_strict")}
+        self._geo = {}
+        self._sb = {}
+        self._alive = []
 
     # ---------------------------------------------------------------- generators
     def exhaustive_scopes(self, tier):
         if tier == "thorough":
             return ["all {0,1,2}-valued symmetric matrices for N = 2..5 candidates x both directions",
-                    "all {0,1}-valued symmetric matrices for N = 6 candidates x both directions"]
-        return ["all {0,1,2}-valued symmetric matrices for N = 2..4 candidates x both directions"]
+                    "all {0,1}-valued symmetric matrices for N = 6 candidates x both directions",
+                    "front ends: every (signature, global-parameter kind, call form) combination on one fixed cost table"]
+        return ["all {0,1,2}-valued symmetric matrices for N = 2..4 candidates x both directions",
+                "front ends: every (signature, global-parameter kind, call form) combination on one fixed cost table"]
+
+    GLOBS_Q = [["none"], ["int", 0], ["float", 0.0], ["float", -0.0], ["bool", False], ["bool", True], ["npf", 0.0],
+               ["int", 1], ["int", -2], ["float", 0.5], ["float", -1.25], ["int", 3], ["float", 2.0], ["npf", 1.5]]
+    GLOBS_F = GLOBS_Q + [["float", INF], ["float", 0.1], ["float", 1e-9], ["float", -0.3], ["float", 1e6]]
+    GLOBS_T = [["none"], ["tuple", []], ["tuple", [0.0]], ["tuple", [0.0, 0.0]], ["tuple", [1.0]], ["tuple", [0.5, -0.25]],
+               ["tuple", [0.0, 1.0]], ["tuple", [2.0, 0.0, 0.125]]]
 
     def cases(self, rng, tier):
         out = []
+        q = tier == "quick"
         nmax = 5 if tier == "thorough" else 4
         for N in range(2, nmax + 1):
             for vals in itertools.product("012", repeat=N * (N - 1) // 2):
@@ -105,12 +282,13 @@ class P(Prop):
             for vals in itertools.product("01", repeat=15):
                 for mode in ("min", "max"):
                     out.append({"kind": "sym", "N": 6, "vals": "".join(vals), "mode": mode})
-        nrand = 1200 if tier == "quick" else 20000
-        for _ in range(nrand):
+        for _ in range(1200 if q else 20000):
             N = rng.choice([rng.randrange(2, 13), rng.randrange(3, 8)])
             out.append(self.rand_matrix(rng, N, "q"))
             out.append(self.rand_matrix(rng, N, "f"))
-        for _ in range(60 if tier == "quick" else 600):   # malformed: single candidate / no candidate / asymmetric
+        for _ in range(300 if q else 4000):      # degenerate sizes, doubles
+            out.append(self.rand_matrix(rng, rng.choice([2, 3]), rng.choice(["q", "f"])))
+        for _ in range(60 if q else 600):   # malformed: single candidate / no candidate / asymmetric
             r = rng.random()
             if r < 0.3:
                 out.append({"kind": "part", "s": "q", "mode": rng.choice(["min", "max"]), "C": [["0", "3"], ["3", "0"]], "dom": "single"})
@@ -124,28 +302,26 @@ class P(Prop):
                         c["C"][i][j] = ratstr(rng.randrange(-5, 9))
                 c["dom"] = "asym"
                 out.append(c)
-        for _ in range(500 if tier == "quick" else 8000):
-            n = rng.randrange(3, 10)
-            W = [[rng.choice([0, 1, 2, 3, 5, 8, -1, rng.randrange(-4, 12)]) for _ in range(n)] for _ in range(n)]
-            r = rng.random()
-            if r < 0.5:
-                out.append({"kind": "seg", "W": W, "mode": rng.choice(["min", "max"]), "glob": rng.random() < 0.5})
-            elif r < 0.8:
-                out.append({"kind": "simp", "W": W, "mode": "min"})
-            else:
-                out.append({"kind": "simplify", "W": W, "mode": "min", "verbose": rng.random() < 0.5})
-        for _ in range(6 if tier == "quick" else 40):
-            # the documented maximising variants of the simplification front end (finding D19 on this tree)
-            n = rng.randrange(4, 8)
-            W = [[rng.randrange(0, 9) for _ in range(n)] for _ in range(n)]
-            out.append({"kind": rng.choice(["simp", "simplify"]), "W": W, "mode": "max"})
-        for _ in range(60 if tier == "quick" else 600):
+        for _ in range(150 if q else 2000):
+            c = self.rand_matrix(rng, rng.randrange(3, 8), rng.choice(["q", "f"]))
+            out.append({"kind": "partseq", "s": c["s"], "C": c["C"],
+                        "modes": [rng.choice(["min", "max"]) for _ in range(rng.randrange(2, 5))]})
+        out += self.fe_grid()
+        for _ in range(1500 if q else 20000):
+            out.append(self.rand_fe(rng))
+        for _ in range(200 if q else 3000):
+            out.append(self.rand_feseq(rng))
+        for _ in range(120 if q else 1500):
+            out.append(self.rand_sb(rng))
+        for _ in range(120 if q else 1200):
             out.append(self.rand_stops(rng))
         return out
 
     def rand_matrix(self, rng, N, s):
         rows = N + 1
-        style = rng.randrange(5)
+        style = rng.randrange(9 if s == "f" else 6)
+        big = rng.random() < 0.5
+
         def ent():
             if s == "q":
                 if style == 0:
@@ -156,7 +332,9 @@ class P(Prop):
                     return Fraction(rng.randrange(0, 2000), 8)
                 if style == 3:
                     return Fraction(rng.choice([0, 0, 1, 4, 9, 16, 25]))
-                return Fraction(rng.randrange(-64, 65), 4)
+                if style == 4:
+                    return Fraction(rng.randrange(-64, 65), 4)
+                return Fraction(rng.choice([0, 1, 1, 2, 3]), rng.choice([1, 2, 4]))       # tie-rich dyadic
             if style == 0:
                 return rng.uniform(0, 1)
             if style == 1:
@@ -165,7 +343,15 @@ class P(Prop):
                 return rng.uniform(0, 1e6)
             if style == 3:
                 return float(rng.randrange(0, 5))
-            return rng.uniform(-1, 1) * 10 ** rng.randrange(-3, 6)
+            if style == 4:
+                return rng.uniform(-1, 1) * 10 ** rng.randrange(-3, 6)
+            if style == 5:        # one decimal: sums that round differently according to the bracketing
+                return rng.randrange(0, 100) / 10
+            if style == 6:        # tie-rich decimals
+                return rng.choice([0.1, 0.2, 0.3, 0.4, 0.7])
+            if style == 7:        # sentinel "forbidden segment" next to small costs (built-in strict criterion)
+                return rng.choice([1.0, 1.0, 1e300 + 1, rng.uniform(0, 3)])
+            return rng.choice([INF, INF, rng.uniform(0, 5), 1.0]) if big else rng.choice([INF, rng.uniform(0, 5), 1.0, 2.0, 0.5])
         M = [[None] * rows for _ in range(rows)]
         for i in range(rows):
             for j in range(i, rows):
@@ -173,41 +359,196 @@ class P(Prop):
                 if i == j and rng.random() < 0.7:
                     v = Fraction(0) if s == "q" else 0.0
                 M[i][j] = M[j][i] = v
+        integral = all(v not in (INF, -INF) and abs(v) < 2 ** 53 and float(v) == int(v) for r in M for v in r)
         if s == "q":
             M = [[ratstr(v) for v in r] for r in M]
-        return {"kind": "part", "s": s, "mode": rng.choice(["min", "max"]), "C": M}
+        c = {"kind": "part", "s": s, "mode": rng.choice(["min", "max"]), "C": M}
+        r = rng.random()
+        if r > 0.92:
+            # the direction given as another object: equal to one of the constants (True, 1.0, numpy integers) or to neither
+            c["modeval"] = rng.choice(MODEVALS[c["mode"]] + (["2", "None", "'max'"] if rng.random() < 0.3 else []))
+        if r < 0.35:
+            forms = ["kw", "verbose", "view", "F"] + (["int"] if integral else []) + (["default"] if c["mode"] == "min" and not c.get("modeval") else [])
+            c["form"] = rng.choice(forms)
+        return c
+
+    # ---- front ends
+    def fe_table(self, rng, n, s):
+        style = rng.randrange(4)
+        def ent():
+            if s == "q":
+                return [Fraction(rng.randrange(0, 9)), Fraction(rng.randrange(-4, 12)), Fraction(rng.randrange(0, 64), 4),
+                        Fraction(rng.choice([0, 1, 2, 3, 5, 8]))][style]
+            return [rng.uniform(0, 10), rng.gauss(0, 3), rng.randrange(0, 100) / 10, rng.choice([0.1, 0.2, 0.5, 1.0, 2.5])][style]
+        A = [[ent() for _ in range(n)] for _ in range(n)]
+        return [[ratstr(v) for v in r] for r in A] if s == "q" else A
+
+    def fe_grid(self):
+        """every signature x parameter kind x call form on one fixed table (the combinations are the point, not the table)"""
+        A = [["3", "1", "4", "1", "5", "9"], ["2", "6", "1", "3", "5", "8"], ["9", "7", "2", "1", "2", "8"],
+             ["1", "8", "2", "8", "0", "4"], ["5", "9", "0", "4", "1", "2"], ["3", "5", "6", "2", "9", "1"]]
+        out = []
+        for sig in ("3", "4", "4d", "var", "obj", "nc"):
+            for g in self.GLOBS_Q:
+                for fam in ("offset", "scale", "thresh"):
+                    for api, form in (("seg", "pos"), ("seg", "kw"), ("simp", "pos"), ("simp", "kw")):
+                        for mode in ("min", "max"):
+                            out.append({"kind": "fe", "api": api, "s": "q", "sig": sig, "fam": fam, "A": A, "glob": g,
+                                        "dflt": ["int", 2], "mode": mode, "form": form})
+            for g in self.GLOBS_T:
+                for api in ("seg", "simp"):
+                    out.append({"kind": "fe", "api": api, "s": "q", "sig": sig, "fam": "weights", "A": A, "glob": g,
+                                "dflt": ["tuple", [1.0, 0.5]], "mode": "min", "form": "pos"})
+            for smode in (7, 8):
+                out.append({"kind": "fe", "api": "simplify", "s": "q", "sig": sig, "fam": "offset", "A": A, "glob": ["none"],
+                            "dflt": ["int", 2], "mode": "min" if smode == 7 else "max", "form": "pos"})
+        return out
+
+    def rand_fe(self, rng):
+        s = rng.choice(["q", "q", "f"])
+        n = rng.choice([rng.randrange(3, 10), rng.randrange(4, 8), rng.randrange(0, 4)])
+        fam = rng.choice(["offset", "offset", "scale", "thresh", "weights"])
+        sig = rng.choice(["3", "4", "4", "4d", "4d", "4d", "var", "obj"] + (["nc"] if rng.random() < 0.1 else []))
+        pool = self.GLOBS_T if fam == "weights" else (self.GLOBS_Q if s == "q" else self.GLOBS_F)
+        g = rng.choice(pool)
+        if rng.random() < 0.35:      # steer towards the accepted protocol with a falsy parameter
+            g = rng.choice([x for x in pool if x[0] != "none" and not pyval(x, self.np)] or [g])
+        d = rng.choice([x for x in pool if x[0] != "none"])
+        if fam == "thresh" and s == "f":
+            g = ["float", rng.choice([0.0, 1.0, 2.5, 5.0, INF])] if g[0] != "none" else g
+        api = rng.choice(["seg", "seg", "simp", "simplify"])
+        mode = rng.choice(["min", "max"])
+        form = rng.choice(["pos", "pos", "kw", "defmode" if mode == "min" else "pos", "omit" if g[0] == "none" else "pos"])
+        if api == "simplify":
+            g, form = ["none"], rng.choice(["pos", "verbose"])
+        return {"kind": "fe", "api": api, "s": s, "sig": sig, "fam": fam, "A": self.fe_table(rng, n, s), "glob": g, "dflt": d,
+                "mode": mode, "form": form}
+
+    def rand_feseq(self, rng):
+        """the same track and the same cost function, asked several times with other parameters / directions / entry points"""
+        base = self.rand_fe(rng)
+        while len(base["A"]) < 4 or base["sig"] in ("3", "nc"):
+            base = self.rand_fe(rng)
+        pool = self.GLOBS_T if base["fam"] == "weights" else (self.GLOBS_Q if base["s"] == "q" else self.GLOBS_F)
+        if base["fam"] == "thresh" and base["s"] == "f":
+            pool = [["none"]] + [["float", v] for v in (0.0, 1.0, 2.5, 5.0, INF)]
+        calls = []
+        for _ in range(rng.randrange(2, 5)):
+            api = rng.choice(["seg", "seg", "simp", "simplify"])
+            calls.append({"api": api, "glob": ["none"] if api == "simplify" else rng.choice(pool), "mode": rng.choice(["min", "max"]),
+                          "form": "pos"})
+        c = {x: base[x] for x in ("s", "sig", "fam", "A", "dflt")}
+        c.update(kind="feseq", calls=calls)
+        return c
+
+    def subcases(self, case):
+        return [dict({x: case[x] for x in ("s", "sig", "fam", "A", "dflt")}, kind="fe", **call) for call in case["calls"]]
+
+    def rand_sb(self, rng):
+        n = rng.choice([rng.randrange(3, 9), rng.randrange(5, 9), rng.randrange(0, 4)])
+        pts, x, y = [], 0.0, 0.0
+        for _ in range(n):
+            x += rng.uniform(0.5, 3.0)
+            y += rng.choice([rng.uniform(-0.05, 0.05), rng.uniform(-2, 2)])
+            pts.append([x, y])
+        tol = rng.choice([["none"], ["int", 0], ["float", 0.0], ["float", 0.0], ["float", -0.0], ["float", 0.05], ["float", 0.5],
+                          ["float", 1.5], ["int", 1], ["float", -1.0], ["float", INF], ["npf", 0.0], ["bool", False]])
+        return {"kind": "sb", "pts": pts, "tol": tol, "smode": rng.choice([4, 5, 6]), "form": rng.choice(["pos", "kw"])}
 
     def rand_stops(self, rng):
+        if rng.random() < 0.25:
+            return self.rand_rtk(rng)
         n = rng.randrange(4, 12)
+        dyadic = rng.random() < 0.4
         pts, x, y, t = [], 0.0, 0.0, 0
         for _ in range(n):
             if rng.random() < 0.6:
-                x += rng.choice([0, 1, -1, 2]); y += rng.choice([0, 1, -1])
+                if dyadic:
+                    x += rng.randrange(-16, 17) / 8; y += rng.randrange(-16, 17) / 8
+                else:
+                    x += rng.choice([0, 1, -1, 2]); y += rng.choice([0, 1, -1])
             else:
                 x += rng.randrange(10, 60); y += rng.randrange(-30, 30)
             t += rng.choice([1, 5, 10, 30])
             pts.append([x, y, t])
-        return {"kind": "stops", "pts": pts, "diameter": rng.choice([5, 10, 20]), "duration": rng.choice([0, 5, 10, 30])}
+        c = {"kind": "stops", "pts": pts, "diameter": rng.choice([5, 10, 20] + ([2.5, 7.25] if dyadic else [])),
+             "duration": rng.choice([0, 5, 10, 30] + ([7.5, 12.5] if dyadic else []))}
+        # exact boundaries: the minimal duration is the duration of a group of the track, the maximal diameter the distance of two
+        # of its fixes (when that distance is a dyadic number)
+        if rng.random() < 0.4:
+            i = rng.randrange(0, n - 1); e = rng.randrange(i + 1, min(n, i + 5))
+            c["duration"] = pts[e][2] - pts[i][2]
+        if rng.random() < 0.4:
+            for _ in range(8):
+                i = rng.randrange(0, n - 1); e = rng.randrange(i + 1, min(n, i + 4))
+                q = Fraction(pts[e][0] - pts[i][0]) ** 2 + Fraction(pts[e][1] - pts[i][1]) ** 2
+                r = Fraction(math.isqrt(q.numerator), math.isqrt(q.denominator))
+                if q > 0 and r * r == q and q < 900:
+                    c["diameter"] = float(r) if r.denominator != 1 else int(r)
+                    break
+        return c
+
+    def rand_rtk(self, rng):
+        n = rng.randrange(4, 12)
+        pts, x, y, t = [], 0.0, 0.0, 0
+        for _ in range(n):
+            if rng.random() < 0.7:
+                x += rng.randrange(-8, 9) / 8; y += rng.randrange(-8, 9) / 8
+            else:
+                x += rng.randrange(5, 40); y += rng.randrange(-20, 20)
+            t += rng.choice([1, 2, 5, 10])
+            pts.append([x, y, t])
+        return {"kind": "stops", "rtk": True, "pts": pts, "std": rng.choice([0.25, 0.5, 1.0, 2.0]), "duration": rng.choice([0, 2, 5, 10])}
 
     def describe(self, case):
-        t = {"kind": case["kind"], "mode": case.get("mode", "-")}
-        if case["kind"] == "sym":
+        k = case["kind"]
+        t = {"kind": k, "mode": case.get("mode", "-")}
+        if k == "sym":
             t["N"] = case["N"]
-        if case["kind"] == "part":
+        if k == "part":
             t["N"] = len(case["C"]) - 1
             t["scalar"] = case["s"]
             t["domain"] = case.get("dom", "in")
+            t["form"] = case.get("form", "pos")
+            t["modeval"] = case.get("modeval", "constant")
+        if k == "fe":
+            t["api"] = case["api"]
+            t["sig"] = case["sig"]
+            t["scalar"] = case["s"]
+            t["fam"] = case["fam"]
+            g = case["glob"]
+            t["glob"] = "none" if g[0] == "none" else ("falsy " if not pyval(g, self.np) else "") + g[0]
+            t["domain"] = "in" if self.fe_in_domain(case) else "out"
+            t["size"] = len(case["A"])
+            t["form"] = case.get("form", "pos")
+        if k == "feseq":
+            t["calls"] = len(case["calls"])
+            t["sig"] = case["sig"]
+        if k == "sb":
+            t["smode"] = case["smode"]
+            g = case["tol"]
+            t["tol"] = "none" if g[0] == "none" else ("falsy " if not pyval(g, self.np) else "") + g[0]
+        if k == "stops":
+            g = self.geometry(case)
+            t["criterion"] = "rtk variant (delegation only)" if case.get("rtk") else (
+                "exact tie with a threshold" if any(v for r in g["tie"] for v in r) else "no tie")
         return t
 
     def nontrivial(self, case):
         k = case["kind"]
         if k == "sym":
             return case["N"] >= 3
-        if k == "part":
+        if k in ("part", "partseq"):
             return len(case["C"]) - 1 >= 3 and not case.get("dom")
         if k == "stops":
-            return len(case["pts"]) >= 4
-        return len(case["W"]) - 1 >= 3
+            return len(case["pts"]) >= 4 and any(v for r in self.geometry(case)["R"] for v in r)
+        if k == "fe":
+            return len(case["A"]) - 1 >= 3 and self.fe_in_domain(case)
+        if k == "feseq":
+            return len(case["A"]) - 1 >= 3 and any(self.fe_in_domain(c) for c in self.subcases(case))
+        if k == "sb":
+            return len(case["pts"]) - 1 >= 3 and case["tol"][0] != "none" and self.sb_tables(case) is not None
+        return True
 
     # ---------------------------------------------------------------- matrices
     def matrix(self, case):
@@ -223,7 +564,7 @@ class P(Prop):
         return case["s"], case["C"]
 
     def exact(self, s, M):
-        return [[Fraction(v) for v in r] for r in M]
+        return [[X(v) for v in r] for r in M]
 
     def track(self, n):
         t = self.Track([], 7)
@@ -231,57 +572,234 @@ class P(Prop):
             t.addObs(self.Obs(self.ENU(float(i), 0.0, 0.0), self.T.readUnixTime(i)))
         return t
 
+    def nparray(self, s, M, form=None):
+        np = self.np
+        C = np.array([[float(Fraction(v)) if s == "q" else float(v) for v in r] for r in M], dtype=float).reshape(len(M), len(M))
+        if form == "int":
+            C = C.astype(np.int64)
+        elif form == "view":
+            big = np.full((2 * len(M), 2 * len(M)), 777.0)
+            big[::2, ::2] = C
+            C = big[::2, ::2]
+        elif form == "F":
+            C = np.asfortranarray(C)
+        return C
+
+    # ---------------------------------------------------------------- front ends: cost functions
+    def fe_in_domain(self, case):
+        """the call the caller writes is one the cost function accepts, and there are at least two candidates"""
+        g = case["glob"][0] == "none" or case["api"] == "simplify"     # simplify's free modes have no global parameter
+        return len(case["A"]) >= 3 and case["sig"] in (ACCEPTS3 if g else ACCEPTS4)
+
+    def make_cost(self, case):
+        s, fam = case["s"], case["fam"]
+        A = [[float(Fraction(v)) if s == "q" else float(v) for v in r] for r in case["A"]]
+        d = pyval(case["dflt"], self.np)
+
+        def val(i, e, p):
+            return cost_value(fam, s, A[i][e + 1], e + 1 - i, p)
+        sig = case["sig"]
+        if sig == "3":
+            def cost(track, i, j):
+                return val(i, j, d)
+        elif sig == "4":
+            def cost(track, i, j, p):
+                return val(i, j, p)
+        elif sig == "4d":
+            def cost(track, i, j, p=d):
+                return val(i, j, p)
+        elif sig == "var":
+            def cost(track, i, j, *rest):
+                return val(i, j, rest[0] if rest else d)
+        elif sig == "obj":
+            class Criterion:
+                def __call__(self, track, i, j, p=d):
+                    return val(i, j, p)
+            cost = Criterion()
+        elif sig == "nc":
+            cost = 3.5
+        else:
+            raise ValueError(sig)
+        return cost
+
+    def fe_tables(self, case):
+        """WD[i][j] = cost(track, i, j-1) (no fourth argument), WG[i][j] = cost(track, i, j-1, requested parameter): the
+        cost function evaluated directly, cell by cell (cells the function does not accept stay 0: never read)"""
+        n = len(case["A"])
+        cost = self.make_cost(case)
+        g = pyval(case["glob"], self.np)
+        t = self.track(n)
+        WD = [[0.0] * n for _ in range(n)]
+        WG = [[0.0] * n for _ in range(n)]
+        for i in range(n):
+            for j in range(n):
+                if case["sig"] in ACCEPTS3:
+                    WD[i][j] = float(cost(t, i, j - 1))
+                if case["sig"] in ACCEPTS4 and g is not None:
+                    WG[i][j] = float(cost(t, i, j - 1, g))
+        return WD, WG
+
+    def requested_matrix(self, n, fn):
+        """exact matrix of the requested criterion: entry (a, b), a < b <= n-2, is fn(a, b-1)"""
+        Cx = [[Fraction(0)] * n for _ in range(n)]
+        for a in range(max(n - 1, 0)):
+            for b in range(a + 1, n - 1):
+                Cx[a][b] = Cx[b][a] = X(fn(a, b - 1))
+        return Cx
+
     # ---------------------------------------------------------------- implementation
     def impl(self, case):
         k = case["kind"]
-        np = self.np
+        S, Z = self.S, self.Z
         if k in ("sym", "part"):
             s, M = self.matrix(case)
-            C = np.array([[float(Fraction(v)) if s == "q" else float(v) for v in r] for r in M], dtype=float).reshape(len(M), len(M))
-            before = C.copy()
-            idx = [int(x) for x in self.S.optimalPartition(C, self.MODES[case["mode"]], False)]
-            if not (C == before).all():
-                raise ValueError("optimalPartition modified its cost matrix")
-            return {"idx": idx, "cost": self.cost_token(s, M, idx)}
-        if k in ("seg", "simp", "simplify"):
-            W = case["W"]
-            n = len(W)
-            t = self.track(n)
-            calls = []
-
-            def cost3(track, i, e):
-                calls.append((i, e))
-                return W[i][e + 1]
-
-            def cost4(track, i, e, g):
-                if g != "G":
-                    raise ValueError("glob_param not passed through")
-                calls.append((i, e))
-                return W[i][e + 1]
-            if k == "seg":
-                if case.get("glob"):
-                    idx = self.S.optimalSegmentation(t, cost4, "G", self.MODES[case["mode"]], False)
-                else:
-                    idx = self.S.optimalSegmentation(t, cost3, None, self.MODES[case["mode"]], False)
-                return {"idx": [int(x) for x in idx]}
-            if k == "simp":
-                r = self.Z.optimalSimplification(t, cost4, "G", self.MODES[case["mode"]])
+            form = case.get("form")
+            C = self.nparray(s, M, form)
+            m = self.MODES[case["mode"]]
+            if case.get("modeval"):
+                m = eval(case["modeval"], {"np": self.np})
+            if form == "default":
+                r = S.optimalPartition(C, verbose=False)
+            elif form == "kw":
+                r = S.optimalPartition(cost_matrix=C, verbose=False, mode=m)
+            elif form == "verbose":
+                r = S.optimalPartition(C, m)
             else:
-                mode = self.Z.MODE_SIMPLIFY_FREE if case["mode"] == "min" else self.Z.MODE_SIMPLIFY_FREE_MAXIMIZE
-                r = self.Z.simplify(t, cost3, mode, bool(case.get("verbose", False)))
-            return {"idx": [int(r.getObs(i).position.getX()) for i in range(r.size())]}
+                r = S.optimalPartition(C, m, False)
+            idx = [int(x) for x in r]
+            # the caller still holds the matrix it built: a second request on the same object must be answered as well
+            again = [int(x) for x in S.optimalPartition(C, m, False)]
+            return {"idx": idx, "cost": self.cost_token(s, M, idx), "again": again}
+        if k == "partseq":
+            C = self.nparray(case["s"], case["C"])
+            return {"seq": [[int(x) for x in S.optimalPartition(C, self.MODES[m], False)] for m in case["modes"]]}
+        if k == "fe":
+            t, cost = self.track(len(case["A"])), self.make_cost(case)
+            self._alive.append((t, cost))      # never let an id() be recycled: a single-call case must not depend on earlier cases
+            return self.run_fe(case, t, cost)
+        if k == "feseq":
+            # one track object, one cost-function object, several requests in a row (state left by earlier calls)
+            t, cost = self.track(len(case["A"])), self.make_cost(case)
+            self._alive.append((t, cost))
+            outs = []
+            for call in case["calls"]:
+                try:
+                    outs.append(self.run_fe(dict(case, kind="fe", **call), t, cost))
+                except Exception as e:
+                    import engine
+                    outs.append({"err": engine.err_kind(e), "detail": str(e)[:200]})
+            return {"seq": outs}
+        if k == "sb":
+            if self.sb_tables(case) is None:
+                return {"err": "err:geometry", "detail": "tracklib's bounding-rectangle geometry fails on this track"}
+            t = self.sb_track(case)
+            self._alive.append(t)
+            tol = pyval(case["tol"], self.np)
+            if case.get("form") == "kw":
+                r = Z.simplify(t, tolerance=tol, mode=case["smode"], verbose=False)
+            else:
+                r = Z.simplify(t, tol, case["smode"], False)
+            xs = [p[0] for p in case["pts"]]
+            return {"idx": [xs.index(r.getObs(i).position.getX()) for i in range(r.size())]}
         if k == "stops":
-            cap = self.capture_stops(case)
-            return cap
+            return self.capture_stops(case)
         raise ValueError(k)
 
-    def capture_stops(self, case):
-        """run findStopsGlobal with its call to optimalPartition intercepted: (matrix, mode, result) of the delegation"""
+    def run_fe(self, case, t, cost):
+        S, Z = self.S, self.Z
+        g = pyval(case["glob"], self.np)
+        m = self.MODES[case["mode"]]
+        form = case.get("form", "pos")
+        api = case["api"]
+        rec = {}
+        real = S.optimalPartition
+
+        def spy(C, *a, **kw):       # the matrix the front end really hands over (correspondence of its construction)
+            rec["matrix"] = self.mtok(case["s"], [[float(v) for v in row] for row in C.tolist()])
+            return real(C, *a, **kw)
+        S.optimalPartition = spy
+        try:
+            if api == "seg":
+                if form == "kw":
+                    r = S.optimalSegmentation(t, cost, verbose=False, mode=m, glob_param=g)
+                elif form == "omit" and g is None:
+                    r = S.optimalSegmentation(t, cost, mode=m, verbose=False)
+                elif form == "defmode" and case["mode"] == "min":
+                    r = S.optimalSegmentation(t, cost, g, verbose=False)
+                else:
+                    r = S.optimalSegmentation(t, cost, g, m, False)
+                return {"idx": [int(x) for x in r], "matrix": rec.get("matrix")}
+            if api == "simp":
+                if form == "kw":
+                    r = Z.optimalSimplification(t, cost, mode=m, eps=g, verbose=False)
+                elif form == "defmode" and case["mode"] == "min":
+                    r = Z.optimalSimplification(t, cost, g, verbose=False)
+                else:
+                    r = Z.optimalSimplification(t, cost, g, m, False)
+            else:
+                smode = Z.MODE_SIMPLIFY_FREE if case["mode"] == "min" else Z.MODE_SIMPLIFY_FREE_MAXIMIZE
+                r = Z.simplify(t, cost, smode) if form == "verbose" else Z.simplify(t, cost, smode, False)
+        finally:
+            S.optimalPartition = real
+        return {"idx": [int(r.getObs(i).position.getX()) for i in range(r.size())], "matrix": rec.get("matrix")}
+
+    def sb_track(self, case):
+        t = self.Track([], 7)
+        for i, (x, y) in enumerate(case["pts"]):
+            t.addObs(self.Obs(self.ENU(float(x), float(y), 0.0), self.T.readUnixTime(i)))
+        return t
+
+    def sb_tables(self, case):
+        """the module's own cost function of the mode, evaluated with the requested tolerance (cell (i, j) = cost(track, i, j-1,
+        tolerance)); None when tracklib's geometry fails on this track — the convex hull of the bounding rectangle loops for
+        ever on some collinear configurations, a vertical hull edge divides by zero — which is not this property: the case is
+        then outside the domain and the implementation is not even run"""
+        key = json.dumps(case, sort_keys=True)
+        if key in self._sb:
+            return self._sb[key]
+        import signal
+        n = len(case["pts"])
+        tol = pyval(case["tol"], self.np)
+        t = self.sb_track(case)
+        f = self.BUILTIN[case["smode"]]
+        W = [[0.0] * n for _ in range(n)]
+
+        def alarm(*a):
+            raise TimeoutError("built-in cost function does not return")
+        old = signal.signal(signal.SIGALRM, alarm)
+        signal.setitimer(signal.ITIMER_REAL, 2.0)
+        try:
+            for i in range(n):
+                for j in range(i, n):
+                    W[i][j] = float(f(t, i, j - 1, 0.25 if tol is None else tol))
+            if tol is None:
+                W = [[0.0] * n for _ in range(n)]
+        except BaseException as e:
+            if isinstance(e, KeyboardInterrupt):
+                raise
+            W = None
+        finally:
+            signal.setitimer(signal.ITIMER_REAL, 0)
+            signal.signal(signal.SIGALRM, old)
+        if len(self._sb) > 4000:
+            self._sb.clear()
+        self._sb[key] = W
+        return W
+
+    def stops_track(self, case):
         t = self.Track([], 7)
         for (x, y, ts) in case["pts"]:
             t.addObs(self.Obs(self.ENU(float(x), float(y), 0.0), self.T.readUnixTime(ts)))
-        rec = {}
+        return t
+
+    def capture_stops(self, case):
+        """run findStopsGlobal, recording the delegation (matrix, mode, result of optimalPartition), the segments for which
+        tracklib's minCircle returned None (geometry is a parameter of the model) and the stops reported"""
+        t = self.stops_track(case)
+        where = {id(t.getObs(i)): i for i in range(t.size())}     # extract() shares the observations
+        rec = {"none": [], "none_after": []}
         real = self.S.optimalPartition
+        real_mc = self.S.minCircle
 
         def spy(C, mode=self.S.MODE_SEGMENTATION_MINIMIZE, verbose=True):
             r = real(C, mode, verbose)
@@ -289,19 +807,34 @@ class P(Prop):
             rec["mode"] = int(mode)
             rec["idx"] = [int(x) for x in r]
             return r
-        # minCircle perturbs degenerate point triples with the global `random`: make the run a function of the case,
-        # so that the matrix captured for the model request is the one the implementation output was computed from
-        import random as _random, json as _json, zlib as _zlib
+
+        def spy_mc(tr):
+            c = real_mc(tr)
+            if c is None:
+                i = where[id(tr.getObs(0))]
+                (rec["none_after"] if "C" in rec else rec["none"]).append([i, i + tr.size() - 1])
+            return c
+        # minCircle draws from the global `random`: make the run a function of the case
+        import random as _random, zlib as _zlib
         state = _random.getstate()
-        _random.seed(_zlib.crc32(_json.dumps(case, sort_keys=True).encode()))
+        _random.seed(case.get("rseed", _zlib.crc32(json.dumps(case, sort_keys=True).encode())))
         self.S.optimalPartition = spy
+        self.S.minCircle = spy_mc
         try:
-            self.S.findStopsGlobal(t, case["diameter"], case["duration"], 1, False)
+            if case.get("rtk"):
+                stops = self.S.findStopsGlobalForRTK(t, case["std"], case["duration"], 1, False)
+            else:
+                stops = self.S.findStopsGlobal(t, case["diameter"], case["duration"], 1, False)
         finally:
             self.S.optimalPartition = real
+            self.S.minCircle = real_mc
             _random.setstate(state)
         if "C" not in rec:
             raise ValueError("findStopsGlobal did not call optimalPartition")
+        rec["stops"] = []
+        if stops.size() > 0:
+            a, b = stops.getAnalyticalFeature("id_ini"), stops.getAnalyticalFeature("id_end")
+            rec["stops"] = [[int(x), int(y)] for x, y in zip(a, b)]
         return rec
 
     def cost_token(self, s, M, idx):
@@ -312,31 +845,132 @@ class P(Prop):
             c += float(M[a][b])
         return c
 
+    # ---------------------------------------------------------------- stop detection: exact geometry
+    def geometry(self, case):
+        key = json.dumps(case, sort_keys=True)
+        g = self._geo.get(key)
+        if g is not None:
+            return g
+        pts = [(Fraction(p[0]), Fraction(p[1])) for p in case["pts"]]
+        ts = [p[2] for p in case["pts"]]
+        n = len(pts)
+        du = Fraction(case["duration"])
+        dur = [[Fraction(ts[e] - ts[i]) for e in range(n)] for i in range(n)]
+        num = None
+        if case.get("rtk"):
+            # findStopsGlobalForRTK: same loops, `far` = distance > 3 std_max, `short` = dt <= duration,
+            # `small` = sqrt(var_x + var_y + var_z) < std_max
+            sd = Fraction(case["std"])
+
+            def var(i, e):
+                m = e - i + 1
+                return sum(sum(p[a] * p[a] for p in pts[i:e + 1]) / m - (sum(p[a] for p in pts[i:e + 1]) / m) ** 2 for a in (0, 1))
+            v = [[var(i, e) if e >= i else None for e in range(n)] for i in range(n)]
+            far = [[int(d2(pts[i], pts[e]) > 9 * sd * sd) for e in range(n)] for i in range(n)]
+            short = [[int(dur[i][e] <= du) for e in range(n)] for i in range(n)]
+            small = [[int(e >= i and v[i][e] < sd * sd) for e in range(n)] for i in range(n)]
+            fuzzy = [[int(e >= i and v[i][e] == sd * sd) for e in range(n)] for i in range(n)]   # a double sqrt decides
+            tie = [[int(e >= i and (fuzzy[i][e] or dur[i][e] == du)) for e in range(n)] for i in range(n)]
+        else:
+            # findStopsGlobal, documented criterion (the tests of the code since 026cb79): C_ij = 0 if the enclosing circle of
+            # p_i..p_{j-1} is > diameter, 0 if the duration is < duration, (j-i)^2 otherwise
+            d = Fraction(case["diameter"])
+            r2 = [[None] * n for _ in range(n)]
+            for i in range(n):
+                for e in range(i, n):
+                    r2[i][e] = mec_r2(pts[i:e + 1])
+            far = [[int(d2(pts[i], pts[e]) > d * d) for e in range(n)] for i in range(n)]
+            short = [[int(dur[i][e] < du) for e in range(n)] for i in range(n)]
+            small = [[int(e >= i and 4 * r2[i][e] <= d * d) for e in range(n)] for i in range(n)]
+            # a circle through three or more distinct fixes whose exact diameter IS the limit: the doubles of minCircle's
+            # circumcircle decide (two fixes exactly `diameter` apart are exact: radius = distance / 2)
+            fuzzy = [[int(e >= i and 4 * r2[i][e] == d * d and len(set(pts[i:e + 1])) >= 3) for e in range(n)] for i in range(n)]
+            tie = [[int(e >= i and (4 * r2[i][e] == d * d or dur[i][e] == du or d2(pts[i], pts[e]) == d * d)) for e in range(n)] for i in range(n)]
+            num = {"diam2": d * d, "duration": du, "dist2": [[Fraction(d2(pts[i], pts[e])) for e in range(n)] for i in range(n)],
+                   "dur": dur, "circ2": [[4 * r2[i][e] if e >= i else Fraction(0) for e in range(n)] for i in range(n)]}
+        # the reward (model's stopsReward): the row loop stops at the first far end point
+        R = [[0] * n for _ in range(n)]
+        for i in range(max(n - 2, 0)):
+            for j in range(i + 1, n - 1):
+                e = j - 1
+                if far[i][e]:
+                    break
+                if small[i][e] and not short[i][e]:
+                    R[i][j] = R[j][i] = (j - i) ** 2
+        if case.get("rtk"):
+            keep = [[int(e + 1 < n and R[i][e + 1] != 0) for e in range(n)] for i in range(n)]
+        else:
+            keep = [[int(e >= i and 4 * r2[i][e] <= d * d and dur[i][e] >= du) for e in range(n)] for i in range(n)]
+        g = {"far": far, "short": short, "small": small, "keep": keep, "tie": tie, "fuzzy": fuzzy, "R": R, "num": num}
+        if len(self._geo) > 4000:
+            self._geo.clear()
+        self._geo[key] = g
+        return g
+
     # ---------------------------------------------------------------- model
     def mtok(self, s, M):
         if s == "q":
-            return ";".join(",".join(str(v) for v in r) for r in M)
-        return ";".join(",".join(fbits(v) for v in r) for r in M)
+            return ";".join(",".join(ratstr(Fraction(v)) if not isinstance(v, str) else v for v in r) for r in M) or "_"
+        return ";".join(",".join(fbits(v) for v in r) for r in M) or "_"
+
+    def btok(self, M):
+        return ";".join(",".join(str(int(v)) for v in r) for r in M) or "_"
 
     def requests(self, case):
         k = case["kind"]
         if k in ("sym", "part"):
             s, M = self.matrix(case)
-            m = int(self.MODES[case["mode"]])
-            reqs = ["C12.part %s %d %s" % (s, m, self.mtok(s, M) or "_")]
+            m = 2 if case.get("modeval") in NEITHER else int(self.MODES[case["mode"]])
+            reqs = ["C12.part %s %d %s" % (s, m, self.mtok(s, M))]
             if len(M) <= 10:   # the function form (un-memoised recursion, exponential) is cross-checked up to N = 9
-                reqs.append("C12.opt %s %d %s" % (s, m, self.mtok(s, M) or "_"))
+                reqs.append("C12.opt %s %d %s" % (s, m, self.mtok(s, M)))
             return reqs
-        if k in ("seg", "simp"):
-            return ["C12.%s q %d %s" % (k, int(self.MODES[case["mode"]]), self.mtok("q", case["W"]))]
-        if k == "simplify":
-            return ["C12.simplify q %d %s" % (7 if case["mode"] == "min" else 8, self.mtok("q", case["W"]))]
+        if k == "partseq":
+            return ["C12.part %s %d %s" % (case["s"], int(self.MODES[m]), self.mtok(case["s"], case["C"])) for m in case["modes"]]
+        if k == "fe":
+            WD, WG = self.fe_tables(case)
+            s = case["s"]
+            cmd = {"seg": "segpy", "simp": "simppy", "simplify": "simplify"}[case["api"]]
+            m = int(self.MODES[case["mode"]])
+            if case["api"] == "simplify":
+                m = 7 if case["mode"] == "min" else 8
+            reqs = ["C12.%s %s %d %s %s %s %s" % (cmd, s, m, MODEL_SIG[case["sig"]], "none" if case["glob"][0] == "none" else "some",
+                                                  self.mtok(s, WD), self.mtok(s, WG))]
+            if self.fe_in_domain(case):
+                # the matrix construction on its own: loop form of the model against numpy's result, see decode/compare
+                reqs.append("C12.matrix %s %s" % (s, self.mtok(s, WD if case["glob"][0] == "none" else WG)))
+            return reqs
+        if k == "feseq":
+            return [self.requests(c)[0] for c in self.subcases(case)]
+        if k == "sb":
+            W = self.sb_tables(case)
+            if W is None:
+                return []
+            return ["C12.simplify f %d 4 %s %s %s" % (case["smode"], "none" if case["tol"][0] == "none" else "some",
+                                                      self.mtok("f", W), self.mtok("f", W))]
         if k == "stops":
+            g = self.geometry(case)
             cap = self.run_capture(case)
-            if "err" in cap:
-                return ["C12.part q 0 0,0;0,0"]
-            M = [[ratstr(Fraction(v)) for v in r] for r in cap["C"]]
-            return ["C12.part q %d %s" % (cap["mode"], self.mtok("q", M))]
+            small = [list(r) for r in g["small"]]
+            keep = [list(r) for r in g["keep"]]
+            n = len(small)
+            have = "C" in cap and len(cap["C"]) == n
+            # where the exact value sits on the threshold and doubles decide (`fuzzy`), whether the size is admitted is geometry
+            # (a parameter of the model): read it off the run
+            adm = {(i, e): int(cap["C"][i][e + 1] != 0) for i in range(n) for e in range(i, n - 1) if g["fuzzy"][i][e]} if have else {}
+            for (i, e), a in adm.items():
+                small[i][e] = keep[i][e] = a
+            if case.get("rtk"):
+                return ["C12.stops q %s %s %s %s" % (self.btok(g["far"]), self.btok(g["short"]), self.btok(small), self.btok(keep))]
+            # findStopsGlobal: the model applies the three tests itself to exact squared lengths and durations
+            num = g["num"]
+            circ = [list(r) for r in num["circ2"]]
+            for (i, e), a in adm.items():
+                circ[i][e] = num["diam2"] if a else num["diam2"] + 1
+            for (i, e) in (cap.get("none") or []):
+                circ[i][e] = Fraction(-1)
+            return ["C12.stopsg q %s %s %s %s %s %s" % (ratstr(num["diam2"]), ratstr(num["duration"]), self.mtok("q", num["dist2"]),
+                                                        self.mtok("q", num["dur"]), self.mtok("q", circ), self.btok(keep))]
 
     def run_capture(self, case):
         import engine
@@ -344,9 +978,16 @@ class P(Prop):
 
     def decode(self, case, replies):
         k = case["kind"]
+        if k == "sb" and not replies:
+            return {"err": "err:geometry"}
         r = replies[0]
-        if r == "bad-request":
+        if any(x == "bad-request" for x in replies):
             raise ValueError("bad-request")
+        if k == "partseq":
+            return {"seq": [[int(x) for x in rr.split(" ")[0].split(",")] for rr in replies]}
+        if k == "feseq":
+            return {"seq": [{"err": rr} if rr.startswith("err:") else {"idx": [] if rr == "_" else [int(x) for x in rr.split(",")]}
+                            for rr in replies]}
         if r.startswith("err:"):
             return {"err": r}
         if k in ("sym", "part"):
@@ -354,78 +995,204 @@ class P(Prop):
             idx, d = r.split(" ")
             if len(replies) > 1 and replies[1] != d:
                 raise ValueError("table form D[0,N-1]=%s differs from function form opt=%s" % (d, replies[1]))
-            return {"idx": [int(x) for x in idx.split(",")], "cost": d if s == "q" else bitsf(d)}
+            return {"idx": [int(x) for x in idx.split(",")], "cost": d if s == "q" else bitsf(d),
+                    "again": [int(x) for x in idx.split(",")]}
         if k == "stops":
-            return {"idx": [int(x) for x in r.split(" ")[0].split(",")]}
-        return {"idx": [] if r == "_" else [int(x) for x in r.split(",")]}
+            mat, idx, st = r.split(" ")
+            return {"C": [[Fraction(v) for v in row.split(",")] for row in mat.split(";")],
+                    "idx": [int(x) for x in idx.split(",")],
+                    "stops": [] if st == "_" else [[int(x) for x in p.split("-")] for p in st.split(",")]}
+        out = {"idx": [] if r == "_" else [int(x) for x in r.split(",")]}
+        if k == "fe" and len(replies) > 1:
+            out["matrix"] = replies[1]
+        return out
+
+    def same_value(self, case, Cx, a, b, rel):
+        N = len(Cx) - 1
+        if not (is_chain(a, N) and is_chain(b, N)):
+            return False
+        ca, cb = chain_cost(Cx, a), chain_cost(Cx, b)
+        if not (finite(ca) and finite(cb)):
+            return ca == cb or (isnan(ca) and isnan(cb))
+        return abs(ca - cb) <= Fraction(rel) * (chain_abs(Cx, a) + chain_abs(Cx, b)) if rel else ca == cb
 
     def compare(self, case, impl_out, model_out):
+        k = case["kind"]
         if case.get("dom"):
             return None   # single/no candidate, asymmetric matrix: outside the property's domain, behaviour left free
-        if self.classify(case, impl_out, None) and self.spec(case, impl_out) is None:
-            # the model mirrors finding D19 (direction not forwarded / TypeError); an implementation in which the
-            # defect has been repaired answers what the property asks for, which is not a disagreement to report
+        if k == "feseq" and "seq" in impl_out:
+            for n, (sub, a, b) in enumerate(zip(self.subcases(case), impl_out["seq"], model_out["seq"])):
+                r = self.compare(sub, a, b)
+                if r:
+                    return "call %d: %s" % (n + 1, r)
             return None
         if "err" in impl_out or "err" in model_out:
             if impl_out.get("err") == model_out.get("err"):
                 return None
-            return "impl=%s model=%s" % (impl_out, model_out)
-        k = case["kind"]
+            return "impl=%s model=%s" % ({x: impl_out[x] for x in impl_out if x != "C"}, model_out)
         if k in ("sym", "part"):
             s, M = self.matrix(case)
             if s == "q":
                 same_cost = Fraction(impl_out["cost"]) == Fraction(model_out["cost"])
             else:
                 a, b = float(impl_out["cost"]), float(model_out["cost"])
-                same_cost = abs(a - b) <= 1e-9 * max(1.0, abs(a), abs(b))
+                same_cost = a == b or abs(a - b) <= 1e-9 * max(1.0, abs(a), abs(b))
+            rel = 0 if s == "q" else 1e-9
+            if impl_out["again"] != model_out["again"] and not self.same_value(case, self.exact(s, M), impl_out["again"], model_out["again"], rel):
+                return "second call on the same matrix object: impl=%s model=%s" % (impl_out["again"], model_out["again"])
             if impl_out["idx"] == model_out["idx"] and same_cost:
                 return None
             # a different chain of the same cost is a tie-break difference, which the property leaves free
             if same_cost and is_chain(impl_out["idx"], len(M) - 1):
                 return None
             return "impl=%s model=%s" % (impl_out, model_out)
+        if k == "partseq":
+            if impl_out["seq"] == model_out["seq"]:
+                return None
+            Cx = self.exact(case["s"], case["C"])
+            for a, b in zip(impl_out["seq"], model_out["seq"]):
+                if a != b and not self.same_value(case, Cx, a, b, 0 if case["s"] == "q" else 1e-9):
+                    return "impl=%s model=%s" % (impl_out["seq"], model_out["seq"])
+            return None
+        if k == "stops":
+            g = self.geometry(case)
+            if [[Fraction(v) for v in r] for r in impl_out["C"]] != model_out["C"]:
+                return "reward matrix: impl=%s model=%s" % (impl_out["C"], [[float(v) for v in r] for r in model_out["C"]])
+            if impl_out["idx"] != model_out["idx"] and not self.same_value(case, model_out["C"], impl_out["idx"], model_out["idx"], 0):
+                return "segmentation: impl=%s model=%s" % (impl_out["idx"], model_out["idx"])
+            if impl_out["idx"] == model_out["idx"]:
+                # the stops reported, except segments on the boundary of the final filter (float radius against diameter/2)
+                # and segments whose circle tracklib could not compute
+                skip = {(a, e) for a in range(len(g["fuzzy"])) for e in range(len(g["fuzzy"])) if g["fuzzy"][a][e]}
+                skip |= {tuple(x) for x in impl_out.get("none_after", [])}
+                a = [x for x in impl_out["stops"] if tuple(x) not in skip]
+                b = [x for x in model_out["stops"] if tuple(x) not in skip]
+                if a != b:
+                    return "stops reported: impl=%s model=%s" % (impl_out["stops"], model_out["stops"])
+            return None
+        if k == "fe" and "matrix" in model_out and model_out["matrix"] != impl_out.get("matrix"):
+            return "matrix construction: impl=%s model=%s" % (impl_out.get("matrix"), model_out["matrix"])
         if impl_out["idx"] == model_out["idx"]:
             return None
-        # front ends: same rule, the cost of both selections is recomputed exactly from the case's cost table
-        Cx = [[Fraction(v) for v in r] for r in (impl_out["C"] if k == "stops" else case["W"])]
-        N = len(Cx) - 1
-        if (is_chain(impl_out["idx"], N) and is_chain(model_out["idx"], N)
-                and chain_cost(Cx, impl_out["idx"]) == chain_cost(Cx, model_out["idx"])):
+        # front ends: same rule, the value of both selections under the requested criterion
+        Cx, rel = self.criterion(case)
+        if Cx is not None and self.same_value(case, Cx, impl_out["idx"], model_out["idx"], rel):
             return None
         return "impl=%s model=%s" % (impl_out["idx"], model_out["idx"])
 
     # ---------------------------------------------------------------- oracle (transfer)
-    def requested_max(self, case):
-        return case["mode"] == "max"
+    def criterion(self, case):
+        """(exact matrix of the criterion the CALLER requested, tolerance), recomputed from the cost function and the
+        requested parameter — never from what the code passed down; (None, _) outside the domain"""
+        k = case["kind"]
+        if k == "fe":
+            if not self.fe_in_domain(case):
+                return None, 0
+            n = len(case["A"])
+            cost = self.make_cost(case)
+            g = pyval(case["glob"], self.np)
+            t = self.track(n)
+            fn = (lambda a, e: cost(t, a, e)) if g is None else (lambda a, e: cost(t, a, e, g))
+            return self.requested_matrix(n, fn), (0 if case["s"] == "q" else 1e-9)
+        if k == "sb":
+            tol = pyval(case["tol"], self.np)
+            n = len(case["pts"])
+            W = self.sb_tables(case)     # the module's own cost function with the requested tolerance
+            if tol is None or n < 3 or W is None:
+                return None, 0
+            return self.requested_matrix(n, lambda a, e: W[a][e + 1]), 1e-9
+        raise ValueError(k)
 
     def spec(self, case, out):
         k = case["kind"]
         if case.get("dom"):
             return None
+        if k == "feseq":
+            if "seq" not in out:
+                return "raised %s (%s)" % (out.get("err"), out.get("detail"))
+            for n, (sub, o) in enumerate(zip(self.subcases(case), out["seq"])):
+                r = self.spec(sub, o)
+                if r:
+                    return "call %d (%s, parameter %s, %s) on the same track and cost function: %s" % (
+                        n + 1, sub["api"], sub["glob"][1:], sub["mode"], r)
+            return None
+        if k in ("fe", "sb"):
+            Cx, rel = self.criterion(case)
+            if Cx is None:
+                return None
+            if "err" in out:
+                return "raised %s (%s) for a call the cost function accepts" % (out["err"], out.get("detail"))
+            return oracle(Cx, len(Cx) - 1, case.get("mode", "min") == "max", out["idx"], rel,
+                          "summed cost for the requested parameter %s" % (case.get("glob") or case.get("tol"))[1:])
         if "err" in out:
             return "raised %s (%s)" % (out["err"], out.get("detail"))
         if k in ("sym", "part"):
             s, M = self.matrix(case)
-            Cx = self.exact(s, M)
-            return oracle(Cx, len(M) - 1, self.requested_max(case), out["idx"], 0 if s == "q" else 1e-9)
-        if k in ("seg", "simp", "simplify"):
-            W = case["W"]
-            N = len(W) - 1
-            Cx = [[Fraction(v) for v in r] for r in W]   # segment (i, j) costs cost(track, i, j-1) = W[i][j], i < j
-            return oracle(Cx, N, self.requested_max(case), out["idx"])
+            if case.get("modeval") in NEITHER:
+                return None if is_chain(out["idx"], len(M) - 1) else "result %s is not a strictly increasing list from 0 to %d" % (out["idx"], len(M) - 2)
+            r = oracle(self.exact(s, M), len(M) - 1, case["mode"] == "max", out["idx"], 0 if s == "q" else 1e-9)
+            if r is None:
+                r = oracle(self.exact(s, M), len(M) - 1, case["mode"] == "max", out["again"], 0 if s == "q" else 1e-9)
+                r = r and "second call on the same matrix object: " + r
+            return r
+        if k == "partseq":
+            Cx = self.exact(case["s"], case["C"])
+            for n, (m, idx) in enumerate(zip(case["modes"], out["seq"])):
+                r = oracle(Cx, len(Cx) - 1, m == "max", idx, 0 if case["s"] == "q" else 1e-9)
+                if r:
+                    return "call %d (%s) on the same matrix object: %s" % (n + 1, m, r)
+            return None
         if k == "stops":
-            # documented criterion of stop detection: maximise the summed reward matrix it builds
+            g = self.geometry(case)
+            n = len(case["pts"])
             if out["mode"] != int(self.S.MODE_SEGMENTATION_MAXIMIZE):
                 return "findStopsGlobal delegates with mode %s instead of MAXIMIZE" % out["mode"]
-            Cx = [[Fraction(v) for v in r] for r in out["C"]]
-            if any(Cx[i][j] != Cx[j][i] for i in range(len(Cx)) for j in range(len(Cx))):
-                return "findStopsGlobal passes an asymmetric matrix"
-            return oracle(Cx, len(Cx) - 1, True, out["idx"])
+            if case.get("rtk"):
+                # the RTK variant is outside the property's anchors: only the delegation (a symmetric matrix, MAXIMIZE, an optimal
+                # answer for the matrix passed); its matrix construction is compared with the model (correspondence)
+                Cx = [[Fraction(v) for v in r] for r in out["C"]]
+                if any(Cx[a][b] != Cx[b][a] for a in range(len(Cx)) for b in range(len(Cx))):
+                    return "findStopsGlobalForRTK passes an asymmetric matrix"
+                return oracle(Cx, len(Cx) - 1, True, out["idx"], 0, "summed reward")
+            # The documented reward recomputed from the track, cell by cell; the cell passed must hold exactly that, except
+            # (a) where doubles decide a circle whose exact diameter is the limit (`fuzzy`: both values accepted) and (b) where
+            # tracklib's minCircle returned None (the code then writes 0).
+            R = g["R"]
+            none = {(i, e + 1) for (i, e) in out.get("none", [])}
+            if len(out["C"]) != n or any(len(r) != n for r in out["C"]):
+                return "findStopsGlobal's reward matrix is not %d x %d" % (n, n)
+            Mx = [[Fraction(0)] * n for _ in range(n)]     # what the code was asked to maximise
+            Dx = [[Fraction(0)] * n for _ in range(n)]     # the documented criterion
+            bad = []
+            for a in range(n):
+                for b in range(n):
+                    v = Fraction(out["C"][a][b])
+                    lo, hi = min(a, b), max(a, b)
+                    if v != Fraction(out["C"][b][a]):
+                        return "findStopsGlobal passes an asymmetric matrix"
+                    Mx[a][b] = v
+                    Dx[a][b] = Fraction(R[a][b])
+                    if lo < hi and g["fuzzy"][lo][hi - 1] and v in (0, (hi - lo) ** 2):
+                        Dx[a][b] = v
+                    elif v == 0 and (lo, hi) in none:
+                        pass
+                    elif v != R[a][b]:
+                        bad.append((a, b, float(v), R[a][b]))
+            if bad:
+                return "findStopsGlobal's reward matrix differs from the documented criterion recomputed from the track: (row, column, passed, criterion) = %s" % (bad[:4],)
+            r = oracle(Mx, n - 1, True, out["idx"], 0, "summed reward")
+            if r:
+                return r
+            r = oracle(Dx, n - 1, True, out["idx"], 0, "summed documented reward")
+            if r:
+                lost = sorted((a, b - 1) for (a, b) in none if Dx[a][b] != 0)
+                return "%s — minCircle returned None for the segment(s) %s, which the documented criterion rewards" % (r, lost)
+            return None
         return None
 
     def classify(self, case, impl_out, msg):
-        if case["kind"] in ("simp", "simplify") and case.get("mode") == "max":
-            return FINDING_D19
+        if case["kind"] == "stops" and not case.get("rtk") and msg and "minCircle returned None" in str(msg):
+            return FINDING_MINCIRCLE
         return None
 
     # ---------------------------------------------------------------- shrinking / search
@@ -437,6 +1204,10 @@ class P(Prop):
             k = "part"
             yield case
         if k == "part":
+            if case.get("form"):
+                yield {x: case[x] for x in case if x != "form"}
+            if case.get("modeval") and case["modeval"] not in NEITHER:
+                yield {x: case[x] for x in case if x != "modeval"}
             M = case["C"]
             n = len(M)
             if n > 4:
@@ -449,18 +1220,44 @@ class P(Prop):
                         M2 = [list(r) for r in M]
                         M2[i][j] = M2[j][i] = zero
                         yield dict(case, C=M2)
-        if k in ("seg", "simp", "simplify"):
-            W = case["W"]
-            n = len(W)
+        if k == "partseq":
+            if len(case["modes"]) > 2:
+                yield dict(case, modes=case["modes"][:-1])
+                yield dict(case, modes=case["modes"][1:])
+            M = case["C"]
+            n = len(M)
+            if n > 4:
+                for d in range(1, n - 1):
+                    yield dict(case, C=[[v for j, v in enumerate(r) if j != d] for i, r in enumerate(M) if i != d])
+        if k == "fe":
+            if case.get("form", "pos") != "pos":
+                yield dict(case, form="pos")
+            if case["api"] != "seg":
+                yield dict(case, api="seg", form="pos")
+            A = case["A"]
+            n = len(A)
             if n > 4:
                 for d in range(n):
-                    yield dict(case, W=[[v for j, v in enumerate(r) if j != d] for i, r in enumerate(W) if i != d])
+                    yield dict(case, A=[[v for j, v in enumerate(r) if j != d] for i, r in enumerate(A) if i != d])
+            zero = "0" if case["s"] == "q" else 0.0
             for i in range(n):
                 for j in range(n):
-                    if W[i][j] != 0:
-                        W2 = [list(r) for r in W]
-                        W2[i][j] = 0
-                        yield dict(case, W=W2)
+                    if A[i][j] != zero:
+                        A2 = [list(r) for r in A]
+                        A2[i][j] = zero
+                        yield dict(case, A=A2)
+        if k == "feseq":
+            if len(case["calls"]) > 1:
+                for d in range(len(case["calls"])):
+                    yield dict(case, calls=case["calls"][:d] + case["calls"][d + 1:])
+            A = case["A"]
+            n = len(A)
+            if n > 4:
+                for d in range(n):
+                    yield dict(case, A=[[v for j, v in enumerate(r) if j != d] for i, r in enumerate(A) if i != d])
+        if k == "sb" and len(case["pts"]) > 4:
+            for d in range(len(case["pts"])):
+                yield dict(case, pts=case["pts"][:d] + case["pts"][d + 1:])
         if k == "stops" and len(case["pts"]) > 4:
             for d in range(len(case["pts"])):
                 yield dict(case, pts=case["pts"][:d] + case["pts"][d + 1:])
@@ -472,6 +1269,8 @@ class P(Prop):
                 out.append({"kind": "sym", "N": 5, "vals": "".join(vals), "mode": mode})
         for _ in range(3000):
             out.append(self.rand_matrix(rng, rng.randrange(3, 9), "q"))
+            out.append(self.rand_matrix(rng, rng.randrange(3, 9), "f"))
+            out.append(self.rand_fe(rng))
         return out
 
     def mutate(self, case, rng):
@@ -486,3 +1285,9 @@ class P(Prop):
                 M2[i][j] = M2[j][i] = ratstr(Fraction(M2[i][j]) + rng.choice([-2, -1, 1, 2]))
                 for mode in ("min", "max"):
                     yield {"kind": "part", "s": "q", "mode": mode, "C": M2}
+        if k == "fe":
+            pool = self.GLOBS_T if case["fam"] == "weights" else self.GLOBS_Q
+            for g in (pool if case["api"] != "simplify" else [["none"]]):
+                for sig in ("3", "4", "4d", "var"):
+                    for mode in ("min", "max"):
+                        yield dict(case, glob=g, sig=sig, mode=mode)
